@@ -36,7 +36,7 @@ BEEnc(v, k) == IF k = 0 THEN <<>> ELSE Append(BEEnc(v \div 256, k - 1), v % 256)
 \*   shape  "c" (1 + cl octets), "u" (1 + 2 cl octets), "bad" (any other length, including 0)
 \*   pfx    the first octet (-1 if there is none)
 \*   xlt    the X octets denote an integer < p          ylt  same for the Y octets ("u" only)
-\*   haspt  some point of the curve has abscissa x      (meaningful when xlt)
+\*   haspt  some point of the curve has abscissa x      ("c" only, meaningful when xlt)
 \*   onc    (x, y) satisfies the curve equation         (meaningful when xlt /\ ylt, "u" only)
 \*   ypar   y mod 2                                     ("u" only)
 Shape(len, cl) == IF len = 1 + cl THEN "c" ELSE IF len = 1 + 2 * cl THEN "u" ELSE "bad"
@@ -58,9 +58,8 @@ SecOkF(f, strict) ==
 SecCompressedF(f) == f.shape = "c"
 
 (* ------------------------------------------------------------------------- SEC, on bytes *)
-\* the ordinates a given abscissa has on the curve (none or two), tabulated once
-YsTab == TLCEval([x \in Fp |-> YsFor(x)])
-Ys(x) == YsTab[x]
+\* the ordinates a given abscissa has on the curve (none or two)
+Ys(x) == YsFor(x)
 SecX(b) == BEVal(SubSeq(b, 2, 1 + CL))
 SecY(b) == BEVal(SubSeq(b, 2 + CL, 1 + 2 * CL))
 HasPoint(x) == x < P /\ Ys(x) # {}
@@ -70,7 +69,7 @@ FieldsOf(b) ==
       y == IF sh = "u" THEN SecY(b) ELSE 0
   IN [shape |-> sh, pfx |-> IF Len(b) >= 1 THEN b[1] ELSE -1,
       xlt |-> sh # "bad" /\ x < P, ylt |-> sh = "u" /\ y < P,
-      haspt |-> sh # "bad" /\ HasPoint(x),
+      haspt |-> sh = "c" /\ HasPoint(x),
       onc |-> sh = "u" /\ x < P /\ y < P /\ OnCurveXY(x, y),
       ypar |-> y % 2]
 
